@@ -383,6 +383,19 @@ func runC07(r *Run) {
 		// ... and named by the data instead of the page
 		emit(cfg{files: fs, page: "page.vuego", data: [][2]string{{"layout", "base"}}, tags: map[string]string{"chain-through-base": fmt.Sprint(ln)}})
 	}
+	// a layout file rendered as the page itself (a theme preview renders every file): layouts/base.vuego names no layout,
+	// so the default layout - itself - is applied once; a layout that names base; a layout that names itself (a cycle)
+	for _, pg := range []string{"layouts/base.vuego", "layouts/a.vuego", "layouts/b.vuego"} {
+		for _, la := range []string{"", "base", "b"} {
+			files := []c07File{
+				{name: "page.vuego", fm: [][2]string{{"layout", "a"}, {"a", "page-a"}}},
+				{name: "layouts/a.vuego", fm: fmOf("layouts/a.vuego", la, [2]string{"a", "la-a"})},
+				{name: "layouts/b.vuego", fm: fmOf("layouts/b.vuego", "", [2]string{"b", "lb-b"})},
+				{name: "layouts/base.vuego", fm: fmOf("layouts/base.vuego", "")},
+			}
+			emit(cfg{files: files, page: pg, data: [][2]string{{"b", "fill-b"}}, tags: map[string]string{"layout-as-page": pg}})
+		}
+	}
 	for cyc := 1; cyc <= 4; cyc++ { // the last link points back to c1 / itself
 		for _, ln := range []int{2, 3, 4, 5} {
 			back := fmt.Sprintf("c%d", ln-cyc)
